@@ -147,6 +147,8 @@ def check_choice_domain(ctx, P, rule="E8.choice"):
                 ok, why = True, "a bool cast to u8"
             if not ok and a.op == "call" and B.cname(a) == "Choice::unwrap_u8":
                 ok, why = True, "the byte of another Choice"
+            if not ok and a.op == "call" and B.cname(a) in ("From::from", "Into::into") and len(a.a[1]) == 1 and set(a.a[0][1][:2]) == {"u8", "bool"}:
+                ok, why = True, "u8::from(bool)"
             if not ok and f.key == "<[u8] as IsZero>::is_zero":
                 ok, why = True, "the zero test's result, shown to be 0 or 1 for all 256 accumulator values (E8.iszero.value in C01/C04/C16)"
                 try:
